@@ -83,6 +83,7 @@ class Exec:
         self.trig = {}
         self.sqrt_cache = {}
         self.fresh = 0
+        self.binfo = {}      # INT mode: expr id -> (known-zero low bits, max significant bits)
         self.cur_pc = None
         self.paths_done = 0
         self.UFS = z3.DeclareSort("F") if mode == "UF" else None
@@ -223,6 +224,12 @@ class Exec:
             return st.mem[p.obj]
         return st.mem[p.obj]
 
+    def ssize(self, t):
+        """bytes touched by a load/store of t"""
+        if t.kind == "int":
+            return (t.bits + 7) // 8
+        return self.m.sizeof(t)
+
     def scalar_leaves(self, t, off=0, out=None):
         if out is None:
             out = []
@@ -263,13 +270,13 @@ class Exec:
                 for i in range(rt.n):
                     vals.append(self.load(st, Ptr(p.obj, p.off + i * es), rt.elem))
             return vals
-        size = self.m.sizeof(rt)
+        size = self.ssize(rt)
         if p.off < 0 or p.off + size > o.size:
             raise Inconclusive("load out of bounds of %s at %d (+%d) size %d" % (o.name, p.off, size, o.size))
         c = o.cells.get(p.off)
         if c is not None:
             v, ct = c
-            csz = self.m.sizeof(ct) if not isinstance(v, Packed) else v.size
+            csz = self.ssize(ct) if not isinstance(v, Packed) else v.size
             if csz == size:
                 return self.reinterpret(v, ct, rt)
         # wider integer load spanning several cells
@@ -277,11 +284,66 @@ class Exec:
             cells = []
             for off in sorted(o.cells):
                 v, ct = o.cells[off]
-                sz = self.m.sizeof(ct)
+                sz = self.ssize(ct)
                 if off >= p.off and off + sz <= p.off + size:
                     cells.append((off - p.off, v, ct))
-            if cells and sum(self.m.sizeof(ct) for _, _, ct in cells) == size:
+            if cells and sum(self.ssize(ct) for _, _, ct in cells) == size and self.int_mode != "INT" and any(not (ct.kind == "int") for _, _, ct in cells):
                 return Packed(cells, size)
+        # bit-level re-slicing of integer/float cells (BV ints, FP or no floats involved)
+        if self.int_mode == "BV" and rt.kind in ("int", "float", "double") and (rt.kind == "int" or self.mode == "FP"):
+            bytes_ = {}
+            ok = True
+            for off2 in sorted(o.cells):
+                v2, ct2 = o.cells[off2]
+                if isinstance(v2, (Packed, Ptr, list)):
+                    if off2 < p.off + size and p.off < off2 + (v2.size if isinstance(v2, Packed) else 8):
+                        ok = False
+                    continue
+                sz2 = self.ssize(ct2)
+                if off2 >= p.off + size or off2 + sz2 <= p.off:
+                    continue
+                if ct2.kind == "int" and z3.is_bv(v2):
+                    bv = v2 if ct2.bits % 8 == 0 else z3.ZeroExt(8 * sz2 - ct2.bits, v2)
+                elif ct2.is_fp and self.mode == "FP":
+                    bv = z3.fpToIEEEBV(v2)
+                else:
+                    ok = False
+                    break
+                for b in range(sz2):
+                    bytes_[off2 + b] = z3.Extract(8 * b + 7, 8 * b, bv)
+            if ok and all((p.off + b) in bytes_ for b in range(size)):
+                bv = bytes_[p.off] if size == 1 else z3.Concat(*[bytes_[p.off + b] for b in reversed(range(size))])
+                if rt.kind == "int":
+                    return bv if rt.bits == 8 * size else z3.Extract(rt.bits - 1, 0, bv)
+                return z3.fpBVToFP(bv, self.fsort(rt))
+        if self.int_mode == "INT" and rt.kind == "int":
+            total = None
+            covered = 0
+            ok = True
+            for off2 in sorted(o.cells):
+                v2, ct2 = o.cells[off2]
+                if isinstance(v2, (Packed, Ptr, list)) or ct2.kind != "int" or z3.is_bv(v2):
+                    sz2 = 8 if not isinstance(v2, Packed) else v2.size
+                    if off2 < p.off + size and p.off < off2 + sz2:
+                        ok = False
+                    continue
+                sz2 = self.ssize(ct2)
+                lo, hi = max(off2, p.off), min(off2 + sz2, p.off + size)
+                if lo >= hi:
+                    continue
+                part = v2
+                if lo > off2:
+                    part = part / (1 << (8 * (lo - off2)))
+                if hi - lo < sz2 - (lo - off2):
+                    part = part % (1 << (8 * (hi - lo)))
+                if lo > p.off:
+                    part = part * (1 << (8 * (lo - p.off)))
+                total = part if total is None else total + part
+                covered += hi - lo
+            if ok and covered == size and total is not None:
+                if rt.bits < 8 * size:
+                    total = total % (1 << rt.bits)
+                return total
         # uninitialised cell: fresh value (undef)
         if c is None and not any(p.off < off2 + self.m.sizeof(o.cells[off2][1]) and off2 < p.off + size for off2 in o.cells):
             v = self.fresh_of(rt, "undef")
@@ -328,7 +390,7 @@ class Exec:
                 for i in range(rt.n):
                     self.store(st, Ptr(p.obj, p.off + i * es), v[i], rt.elem)
             return
-        size = self.m.sizeof(rt)
+        size = self.ssize(rt)
         if v is None:
             v = self.fresh_of(rt, "undef")
         if p.off < 0 or p.off + size > o.size:
@@ -336,7 +398,7 @@ class Exec:
         # remove overlapped cells
         for off2 in list(o.cells):
             c2 = o.cells[off2]
-            sz2 = c2[0].size if isinstance(c2[0], Packed) else self.m.sizeof(c2[1])
+            sz2 = c2[0].size if isinstance(c2[0], Packed) else self.ssize(c2[1])
             if off2 < p.off + size and p.off < off2 + sz2 and off2 != p.off:
                 if off2 >= p.off and off2 + sz2 <= p.off + size:
                     del o.cells[off2]
@@ -564,7 +626,17 @@ class Exec:
                 c = self.concrete_int(b)
                 if c is None:
                     raise Inconclusive("symbolic shift in INT mode")
-                return (a * (1 << c)) % M
+                mb = self.binfo.get(a.get_id(), (0, bits))[1]
+                r = (a * (1 << c)) % M if mb + c > bits else a * (1 << c)
+                self.binfo[r.get_id()] = (c, min(bits, mb + c))
+                return r
+            if op == "or":
+                la, ma = self.binfo.get(a.get_id(), (0, bits))
+                lb, mb = self.binfo.get(b.get_id(), (0, bits))
+                if ma <= lb or mb <= la:
+                    r = a + b
+                    self.binfo[r.get_id()] = (min(la, lb), max(ma, mb))
+                    return r
             if op == "lshr":
                 c = self.concrete_int(b)
                 if c is None:
@@ -693,7 +765,13 @@ class Exec:
         if op == "zext":
             if INT:
                 if z3.is_bv(v):
-                    return z3.BV2Int(v)
+                    r = z3.BV2Int(v)
+                    self.binfo[r.get_id()] = (0, st.bits)
+                    return r
+                if v.get_id() not in self.binfo:
+                    self.binfo[v.get_id()] = (0, st.bits)
+                else:
+                    self.binfo[v.get_id()] = (self.binfo[v.get_id()][0], min(st.bits, self.binfo[v.get_id()][1]))
                 return v
             return z3.ZeroExt(dt.bits - st.bits, v)
         if op == "sext":
@@ -989,6 +1067,8 @@ class Exec:
         if callee.kind != "global":
             raise Inconclusive("indirect call")
         name = callee.v
+        if name.startswith(("llvm.experimental.", "llvm.lifetime.", "llvm.dbg.", "llvm.assume", "llvm.invariant.")):
+            return None
         args = [self.val(st, a) for a in ins.ops]
         ty = ins.ty
         if name.startswith("vp_nondet_"):
